@@ -59,7 +59,7 @@ class Slice:
         self.arrays = [
             X.Float64[:, 3], X.Int16[2:1, 3:0], X.Int64[:, :, 2], S1[:], S2[:], S2[2], X.UInt8[5], X.Float32[:],
             X.String[:], X.Int32[None:1, None:2, None:0], X.Int8[2:2, 3:0, 2:1], X.Int8[:][:], X.Float32[:][2],
-            X.String[2:1, 3:0], X.String[:, 2], S2[2, 2],
+            X.String[2:1, 3:0], X.String[:, 2], S2[2, 2], X.Ref[S1][:], X.Ref[S1][2],
         ]
         if tier == "thorough":
             self.arrays += [
